@@ -19,6 +19,7 @@ from __future__ import annotations
 from ast import literal_eval
 from multiprocessing import Lock
 from multiprocessing import Value
+from typing import ClassVar
 from pathlib import Path
 from uuid import uuid4
 
@@ -60,6 +61,8 @@ class DirectoryCreator(Serializable):
 
     __last_directory: Path | None
     """The last created directory or ``None`` if none has been created."""
+
+    _ATTR_NOT_TO_SERIALIZE: ClassVar[set[str]] = {"_DirectoryCreator__lock"}
 
     def __init__(
         self,
